@@ -77,7 +77,12 @@ def checkFontFields (s : Sexp) : Option FontVerdict := do
     (if (rep.info.lookup "fvar.axisCount").isSome then [s!"axes{get "fvar.axisCount"}"] else ["static"]) ++
     (if ((rep.info.lookup "components").getD []).isEmpty then [] else [s!"composites-depth{get "componentDepth"}"]) ++
     (["gvar.glyphCount", "HVAR.axisCount", "VVAR.axisCount", "MVAR.axisCount", "avar.axisCount", "STAT.nameIds", "vhea.numLongMetrics"].filterMap
-      fun k => if (rep.info.lookup k).isSome then some ((k.splitOn ".").head!) else none)
+      fun k => if (rep.info.lookup k).isSome then some ((k.splitOn ".").head!) else none) ++
+    (if (rep.info.lookup "GDEF.axisCount").isSome then ["GDEF-varstore"] else []) ++
+    (if get "GSUB.featureVariationRecords" + get "GPOS.featureVariationRecords" > 0 then ["FeatureVariations"] else []) ++
+    (if ((rep.info.lookup "varIdx").getD []).isEmpty then [] else ["VariationIndex"]) ++
+    (if (rep.info.lookup "BASE.axisCount").isSome then ["BASE-varstore"] else []) ++
+    (if (rep.info.lookup "COLR.axisCount").isSome then ["COLR-varstore"] else [])
   let detail := ";".intercalate (rep.failures ++ (if rfOk then [] else rfErrors.take 3) ++ mismatches.take 3)
   some { ok, parsersAgree := agree, cls, detail := detail.map (fun c => if c == ' ' then '_' else c), tags }
 
@@ -170,7 +175,12 @@ def handleFont : Handler := fun s =>
         else if !dropped.isEmpty then "table-dropped:" ++ dropped.head!
         else if !mergeOk then "assembly-differs" else v.cls
       some { corr := some (v.parsersAgree && mergeOk), oracle := some ok, nontrivial := true, cls := cls,
-             tags := v.tags ++ (if debg then ["debg"] else []) ++ (if skip then ["skip-features"] else []),
+             tags := v.tags ++ (if debg then ["debg"] else []) ++ (if skip then ["skip-features"] else []) ++
+               (match s.field1? "pointaxis" with
+                | some (.atom "none") | none => []
+                | some (.atom "0") => ["point-axis", "point-axis-first"]
+                | some _ => ["point-axis"]) ++
+               (if (s.field1? "varfea") == some (Sexp.atom "true") then ["varfea"] else []),
              detail := v.detail }
     | .atom "err" :: e :: _ =>
       some { corr := none, oracle := none, nontrivial := false, tags := ["err:" ++ errWord (e.asString?.getD "?")] }
